@@ -75,8 +75,12 @@ def value_xml(cx, prefixes, tag, rng, allow_lang=True):
         a, text = ' xsi:type="xsd:anyURI"', "http://example.org/thing"
     elif r < 0.84:
         a, text = ' xsi:type="xsd:QName"', rng.choice(prefixes) + ":" + rng.choice(LOCALS)
-    elif r < 0.92 and allow_lang:
+    elif r < 0.90 and allow_lang:
         a, text = ' xml:lang="%s"' % rng.choice(["en", "fr-CA"]), rng.choice(STRINGS)
+    elif r < 0.92 and allow_lang:
+        # a language tag next to an explicit datatype, in either attribute order
+        l_, t_ = ' xml:lang="%s"' % rng.choice(["en", "fr-CA"]), ' xsi:type="%s"' % rng.choice(["xsd:string", "%s:MyType" % rng.choice(prefixes)])
+        a, text = (l_ + t_ if rng.random() < 0.5 else t_ + l_), rng.choice(STRINGS)
     else:
         a, text = ' xsi:type="%s:MyType"' % rng.choice(prefixes), rng.choice(STRINGS)
     r2 = rng.random()
